@@ -73,7 +73,8 @@ type verifCtx struct {
 	used     [transports]bool
 	mono     map[[3]int][4]uint32 // (t, peer, gen) -> oP, oN, iP, kP
 	seenGen  map[[2]int]uint32
-	curCmd   string
+	incOf    map[*Connection]int
+	curCmd   [4]int
 	progress uint64
 }
 
@@ -138,7 +139,7 @@ func VerifRun(sc VerifScenario, buf *bytes.Buffer, sum *bytes.Buffer) (res Verif
 		receivedMessages: make(map[RandomMessage]int),
 	}
 	v := &verifCtx{fctx: fctx, sc: sc, buf: buf, res: &res, sent: map[[3]int]uint32{}, dcount: map[[3]int]int{},
-		mono: map[[3]int][4]uint32{}, seenGen: map[[2]int]uint32{}}
+		mono: map[[3]int][4]uint32{}, seenGen: map[[2]int]uint32{}, incOf: map[*Connection]int{}}
 	for tId := 0; tId < transports; tId++ {
 		udpAddr, err := net.ResolveUDPAddr("udp", transportIdToAddress(tId))
 		if err != nil {
@@ -262,7 +263,7 @@ func (v *verifCtx) guard(at int, f func()) (ok bool) {
 			if v.res.PanicAt < 0 {
 				v.res.PanicAt = at
 			}
-			v.res.PanicCmd = v.curCmd
+			v.res.PanicCmd = fmt.Sprintf("%c %d %d %d", rune(v.curCmd[0]), v.curCmd[1], v.curCmd[2], v.curCmd[3])
 			ok = false
 		}
 	}()
@@ -329,7 +330,7 @@ func (v *verifCtx) commands() {
 }
 
 func (v *verifCtx) cmdNew(src, dst, size int) {
-	v.curCmd = fmt.Sprintf("n %d->%d size %d", src, dst, size)
+	v.curCmd = [4]int{'n', src, dst, size}
 	v.res.Acts["n"]++
 	v.used[src], v.used[dst] = true, true
 	fctx := v.fctx
@@ -361,7 +362,7 @@ func (v *verifCtx) cmdNew(src, dst, size int) {
 }
 
 func (v *verifCtx) cmdWrite(t int) {
-	v.curCmd = fmt.Sprintf("w %d", t)
+	v.curCmd = [4]int{'w', t}
 	v.res.Acts["w"]++
 	fctx := v.fctx
 	var before [transports]int
@@ -440,7 +441,7 @@ func (v *verifCtx) cmdWrite(t int) {
 }
 
 func (v *verifCtx) cmdRead(t, i int) {
-	v.curCmd = fmt.Sprintf("r %d %d", t, i)
+	v.curCmd = [4]int{'r', t, i}
 	v.res.Acts["r"]++
 	fctx := v.fctx
 	l := len(fctx.network[t])
@@ -506,7 +507,7 @@ func (v *verifCtx) cmdRead(t, i int) {
 }
 
 func (v *verifCtx) cmdEnc(t int) {
-	v.curCmd = fmt.Sprintf("e %d", t)
+	v.curCmd = [4]int{'e', t}
 	v.res.Acts["e"]++
 	n := len(v.fctx.encHdrs[t])
 	doEncHdrRcv(v.fctx, t)
@@ -521,8 +522,8 @@ func (v *verifCtx) cmdEnc(t int) {
 }
 
 func (v *verifCtx) cmdTimer(t, k int) {
-	v.curCmd = fmt.Sprintf("t %d kind %d", t, k)
-	v.res.Acts["t"+strconv.Itoa(k)]++
+	v.curCmd = [4]int{'t', t, k}
+	v.res.Acts[[]string{"t0", "t1", "t2", "t3"}[k]]++
 	switch k {
 	case 0:
 		doResendTimerBurn(v.fctx, t)
@@ -541,7 +542,7 @@ func (v *verifCtx) cmdTimer(t, k int) {
 }
 
 func (v *verifCtx) cmdDup(t, i int) {
-	v.curCmd = fmt.Sprintf("d %d %d", t, i)
+	v.curCmd = [4]int{'d', t, i}
 	v.res.Acts["d"]++
 	fctx := v.fctx
 	l := len(fctx.network[t])
@@ -564,7 +565,7 @@ func (v *verifCtx) cmdDup(t, i int) {
 }
 
 func (v *verifCtx) cmdLoss(t, i int) {
-	v.curCmd = fmt.Sprintf("l %d %d", t, i)
+	v.curCmd = [4]int{'l', t, i}
 	v.res.Acts["l"]++
 	fctx := v.fctx
 	l := len(fctx.network[t])
@@ -600,9 +601,13 @@ func (v *verifCtx) pending() bool {
 			return true
 		}
 		for _, c := range t.handshakeByPid {
-			if c.outgoing.messageQueue.Len() > 0 || c.outgoing.ackSeqNoPrefix != c.outgoing.nextSeqNo ||
-				c.incoming.ackPrefix != c.incoming.nextSeqNo || c.acks.HaveHoles() ||
-				c.acks.ackPrefix != c.incoming.ackPrefix {
+			if c.outgoing.messageQueue.Len() > 0 || c.outgoing.ackSeqNoPrefix != c.outgoing.nextSeqNo {
+				return true
+			}
+			// after a generation bump the peer may be gone for ever: a receiver's half open
+			// window is then not something the settle loop can wait for
+			if !v.sc.Restarts && (c.incoming.ackPrefix != c.incoming.nextSeqNo || c.acks.HaveHoles() ||
+				c.acks.ackPrefix != c.incoming.ackPrefix) {
 				return true
 			}
 		}
@@ -758,12 +763,12 @@ func (v *verifCtx) finalSusp(ok bool) {
 	if v.res.Settle != "ok" {
 		v.susp("settle-" + v.res.Settle)
 	}
-	for tId, t := range v.fctx.ts {
-		if t.acquiredMemory != 0 {
-			v.susp(fmt.Sprintf("memory-held-%d", tId))
-		}
-	}
 	if !v.sc.Restarts {
+		for tId, t := range v.fctx.ts {
+			if t.acquiredMemory != 0 {
+				v.susp(fmt.Sprintf("memory-held-%d", tId))
+			}
+		}
 		if v.fctx.allocatedMessages != v.fctx.deallocatedMessages {
 			v.susp("alloc-dealloc")
 		}
@@ -786,6 +791,15 @@ func (v *verifCtx) conns(t int) []*Connection {
 	}
 	sort.Slice(cs, func(i, j int) bool { return cs[i].remotePort < cs[j].remotePort })
 	return cs
+}
+
+func (v *verifCtx) inc(c *Connection) int {
+	if n, ok := v.incOf[c]; ok {
+		return n
+	}
+	n := len(v.incOf) + 1
+	v.incOf[c] = n
+	return n
 }
 
 func (v *verifCtx) emitSimple(op string) {
@@ -830,7 +844,7 @@ func (v *verifCtx) proj(t int) {
 				q++
 			}
 		}
-		fmt.Fprintf(b, `{"p":%d,"g":%d,"oP":%d,"oN":%d,"oA":[`, addressToTransportId(c.remoteAddr().String()), c.generation,
+		fmt.Fprintf(b, `{"p":%d,"g":%d,"c":%d,"oP":%d,"oN":%d,"oA":[`, addressToTransportId(c.remoteAddr().String()), c.generation, v.inc(c),
 			c.outgoing.ackSeqNoPrefix, c.outgoing.nextSeqNo)
 		first := true
 		for s := c.outgoing.ackSeqNoPrefix; s < c.outgoing.nextSeqNo; s++ {
@@ -853,7 +867,7 @@ func (v *verifCtx) proj(t int) {
 				b.WriteString(strconv.Itoa(int(s)))
 			}
 		}
-		fmt.Fprintf(b, `],"tot":%d,"rq":%d,"kP":%d,"kS":[`, c.incoming.messagesTotalOffset, c.incoming.requestedMemorySize, c.acks.ackPrefix)
+		fmt.Fprintf(b, `],"tot":%d,"beg":%d,"rq":%d,"kP":%d,"kS":[`, c.incoming.messagesTotalOffset, c.incoming.messagesBeginOffset, c.incoming.requestedMemorySize, c.acks.ackPrefix)
 		first = true
 		for r := c.acks.firstRange; r != nil; r = r.next {
 			for s := r.ackFrom; s <= r.ackTo; s++ {
@@ -882,13 +896,15 @@ func (v *verifCtx) after(t int) {
 	if tr.memoryWaiters.Len() > 0 {
 		v.res.Waited++
 	}
+	var held int64
 	for _, c := range tr.handshakeByPid {
 		p := addressToTransportId(c.remoteAddr().String())
 		if g, ok := v.seenGen[[2]int{t, p}]; ok && g != c.generation {
 			v.res.Restarted++
 		}
 		v.seenGen[[2]int{t, p}] = c.generation
-		k := [3]int{t, p, int(c.generation)}
+		held += c.incoming.messagesTotalOffset - c.incoming.messagesBeginOffset
+		k := [3]int{t, p, v.inc(c)}
 		cur := [4]uint32{c.outgoing.ackSeqNoPrefix, c.outgoing.nextSeqNo, c.incoming.ackPrefix, c.acks.ackPrefix}
 		if old, ok := v.mono[k]; ok {
 			for j := range cur {
@@ -901,6 +917,9 @@ func (v *verifCtx) after(t int) {
 		if cur[0] > cur[1] || cur[3] > cur[2] || c.incoming.ackPrefix > c.incoming.nextSeqNo {
 			v.susp("prefix-order")
 		}
+	}
+	if held != tr.acquiredMemory {
+		v.susp("memory-accounting")
 	}
 }
 
